@@ -73,6 +73,7 @@ class _Acc:
         self.nfail = 0
         self.c = {}
         self.states = set()
+        self.full_states = set()
         self.hist = {}
         self.samples = []
 
@@ -118,7 +119,8 @@ def _culprit(hist, name, parser):
 def _check_history(hist, st, parent_st, bad, diverged, acc, parser, probes_on, subchecks):
     """Replay one history.  Returns (bad, diverged) to hand down to extensions."""
     acc.add("histories")
-    acc.states.add(st)
+    acc.states.add(tuple((k, o) for k, o, t in st[0]))
+    acc.full_states.add(st)
     d = S.depth(st)
     base = S.program(hist, st, "")
     if bad is None:
@@ -250,7 +252,7 @@ def _work(task):
                     visit(hist + (ev,), s2, st, bad2, div2)
 
     visit(tuple(prefix), st, parent, bad, diverged)
-    return acc.fails, acc.nfail, acc.c, acc.states, acc.hist, acc.samples
+    return acc.fails, acc.nfail, acc.c, (acc.states, acc.full_states), acc.hist, acc.samples
 
 
 def _tasks(L, alpha_kind, init_enum, min_len, subcheck_max):
@@ -327,6 +329,7 @@ def run(tier):
     # smallest first so that the first failure per signature is minimal
     tasks.sort(key=lambda t: len(t[0]))
     states = set()
+    full_states = set()
     tot = {}
     hist = {}
     samples = []
@@ -338,7 +341,8 @@ def run(tier):
             tot[k] = tot.get(k, 0) + v
         for k, v in h.items():
             hist[k] = hist.get(k, 0) + v
-        states |= sts
+        states |= sts[0]
+        full_states |= sts[1]
         samples += smp
     # smallest history first, so that the recorded case per signature is minimal
     allfails.sort(key=lambda f: (len(f[1].get("history", ())), len(f[1].get("text", ""))))
@@ -364,6 +368,7 @@ def run(tier):
 
     probes = tot.get("probes", 0)
     R.set("states", len(states))
+    R.set("model_states_incl_tags_labels_linkage", len(full_states))
     R.set("transitions", tot.get("transitions", 0))
     R.set("histories", tot.get("histories", 0))
     R.set("histories_replayed_with_probes", tot.get("histories_probed", 0))
